@@ -101,15 +101,16 @@ Section Engine.
     existsb (fun i => match ns_mode (nspec_of i) with MInline | MThread => true | _ => false end) (b_map B).
 
   (* ---- reduced DAGs ----------------------------------------------------------------------- *)
-  Definition filtered_view (released : list key) : view :=
-    {| v_node_ok := fun k => mem key_eqb k released || negb (is_child G k);
+  (* the view of _get_reduced_dag: case edges are dropped; a OneOf candidate is visible only as the
+     destination of its own sub-DAG *)
+  Definition filtered_view (oneof : bool) (dst : key) : view :=
+    {| v_node_ok := fun k => (oneof && key_eqb k dst) || negb (is_child G k);
        v_edge_ok := fun ea => match ea_case ea with Some _ => false | None => true end |}.
   Definition full_view : view := {| v_node_ok := fun _ => true; v_edge_ok := fun _ => true |}.
 
   Definition reduced (st : mstate) (src dst : key) (oneof nested : bool) : mstate * rdag :=
-    let st1 := if oneof then release_child dst st else st in
-    (st1, {| d_nodes := path_nodes G (filtered_view (st_released st1)) src dst; d_src := src; d_dst := dst;
-             d_rec := false; d_oneof := oneof; d_nested := nested |}).
+    (st, {| d_nodes := path_nodes G (filtered_view oneof dst) src dst; d_src := src; d_dst := dst;
+            d_rec := false; d_oneof := oneof; d_nested := nested |}).
 
   Definition rec_subgraph (s n : key) (oneof : bool) : rdag :=
     {| d_nodes := path_nodes G full_view s n; d_src := s; d_dst := n; d_rec := true; d_oneof := oneof;
@@ -126,6 +127,13 @@ Section Engine.
     forallb (fun p => let p' := resolve_switch s p in
                       exists_result p' s && negb (is_rec (get_result p' false s)))
             (ready_preds d n).
+
+  (* __get_dependency_error: an error kept as the result of a (resolved) dependency *)
+  Definition dep_error (s : storage) (d : rdag) (n : key) : option exn :=
+    match filter (fun p => exists_error p s) (map (resolve_switch s) (ready_preds d n)) with
+    | p :: _ => match get_result p false s with VExn e => Some e | _ => None end
+    | [] => None
+    end.
 
   Definition has_subgraph_error (s : storage) (d : rdag) : bool := existsb (fun k => exists_error k s) (d_nodes d).
 
@@ -312,11 +320,15 @@ Section Engine.
           let st2 := notify_keys (descendants n) st1 in
           (notify (CNode (d_dst d)) st2, DRet (SVal VNone))
         else
-          let k := if is_switch G n then [FSwitchStart d n]
-                   else if is_head G n then [FOneOfLoop d n (na_cands (nattr_of G n))]
-                        else [FNodeStart d n false] in
-          let '(st1, t') := spawn (TNNode n) true k st in
-          (st1, DCont [FDagLoop d rest (locals ++ [t'])] SGo)
+          match (if d_oneof d then None else dep_error (st_store st) d n) with
+          | Some e => (notify CRun st, DRet (SThrow e))
+          | None =>
+            let k := if is_switch G n then [FSwitchStart d n]
+                     else if is_head G n then [FOneOfLoop d n (na_cands (nattr_of G n))]
+                          else [FNodeStart d n false] in
+            let '(st1, t') := spawn (TNNode n) true k st in
+            (st1, DCont [FDagLoop d rest (locals ++ [t'])] SGo)
+          end
       else (st, DSuspend (WCond (CNode n)) [FDagLoop d (n :: rest) locals])
     | FDagFinal d, SGo =>
       if exists_result (d_dst d) (st_store st)
@@ -487,7 +499,7 @@ Section Engine.
     match st_ready st with
     | [] => st
     | t :: rest =>
-      let st1 := {| st_store := st_store st; st_released := st_released st; st_adddata := st_adddata st;
+      let st1 := {| st_store := st_store st; st_adddata := st_adddata st;
                     st_tasks := st_tasks st; st_ready := rest; st_waiters := st_waiters st;
                     st_events := st_events st; st_trace := st_trace st; st_next := st_next st |} in
       match find_task t (st_tasks st1) with
